@@ -6,9 +6,15 @@ import "github.com/yuin/gopher-lua/ast"
 
 // C01.fold — compile-time folding of a constant arithmetic expression equals run-time evaluation.
 //
-//verif:harness prop=C01 tier=quick bounds="all float64 a,b; 6 binary operators; math.Mod/math.Pow uninterpreted (same symbol both sides)"
+//verif:harness prop=C01 tier=quick bounds="all float64 a,b; 6 binary operators; math.Mod/math.Pow uninterpreted (same symbol both sides), and again with a, b any 32-bit integers where % is the exact remainder"
 func H_C01_fold() {
-	a, b := VFloat("a"), VFloat("b")
+	var a, b float64
+	if VChoice(2) == 1 {
+		// integer-valued operands: % has its exact remainder semantics here instead of an uninterpreted symbol
+		a, b = float64(VI32("ai")), float64(VI32("bi"))
+	} else {
+		a, b = VFloat("a"), VFloat("b")
+	}
 	ops := []string{"+", "-", "*", "/", "%", "^"}
 	opc := []int{OP_ADD, OP_SUB, OP_MUL, OP_DIV, OP_MOD, OP_POW}
 	k := VChoice(len(ops))
